@@ -387,7 +387,7 @@ func (s *GenSource) genInjections(w *World, b *Block) {
 	}
 }
 
-var queryPaths = []string{"account", "delegatee", "stakes", "stakes/total_power", "stakes/voting_power", "reward", "proposal", "gov_params", "nonsense"}
+var queryPaths = []string{"account", "delegatee", "stakes", "stakes/total_power", "stakes/voting_power", "reward", "proposal", "gov_params", "vm_call", "nonsense"}
 
 func (s *GenSource) genQuery(w *World, pos int) Injected {
 	t := s.t
@@ -403,6 +403,13 @@ func (s *GenSource) genQuery(w *World, pos int) Injected {
 			q.Data = txHashOf([]byte("none"))
 		}
 	case "gov_params", "stakes/total_power", "stakes/voting_power":
+	case "vm_call":
+		// from(20) + to(20) + calldata: a read-only contract call
+		to := pick(t, s.all, "vmTo").Addr
+		if ks := sortedKeys(w.Contracts); len(ks) > 0 && pct(t, 80, "vmToContract") {
+			to = unhx(pick(t, ks, "vmContract"))
+		}
+		q.Data = append(append(append([]byte{}, pick(t, s.all, "vmFrom").Addr...), to...), rapid.SliceOfN(rapid.Byte(), 0, 36).Draw(t, "vmCalldata")...)
 	default:
 		if pct(t, 85, "qKnownAddr") {
 			q.Data = pick(t, s.all, "qAddr").Addr
